@@ -197,8 +197,8 @@ def collective_sites():
 
 
 def run(prop, tier, seed, replay):
-    ck = Check(prop, tier, seed, kernels=["k_mpi", "k_schedule", "k_collective", "k_wrappers"], theorems=THEOREMS + COLL_THEOREMS + ["Yaw.C05.progress_wrapper_transparent", "Yaw.C05.progress_wrapper_flags"],
-               lean_modules=["YawVerif.Props.C06", "YawVerif.Props.C06Coll", "YawVerif.Props.C05"],
+    ck = Check(prop, tier, seed, kernels=["k_mpi", "k_schedule", "k_collective", "k_wrappers", "k_glue"], theorems=THEOREMS + COLL_THEOREMS + ["Yaw.C05.progress_wrapper_transparent", "Yaw.C05.progress_wrapper_flags", "Yaw.Glue.get_size_spec"],
+               lean_modules=["YawVerif.Props.C06", "YawVerif.Props.C06Coll", "YawVerif.Props.C05", "YawVerif.Props.Glue"],
                rule=RULE, level="proof",
                assumptions=["PARTIAL: mpi4py / a real MPI library is replaced by harness/fakempi (pickle transport, "
                             "non-overtaking per sender and tag, wildcard receives match any pending sender, eager or "
